@@ -21,6 +21,7 @@ namespace MenpoModel.C15.GenProps.Src
 open MenpoModel.C15 MenpoModel.C15.Src MenpoModel.C15.SrcGen
 
 @[simp] theorem truth_bool (b : Bool) : PyTruth.truth b = b := rfl
+@[simp] theorem truth_list {a} (l : List a) : PyTruth.truth l = !l.isEmpty := rfl
 @[simp] theorem truth_dict {β} (d : ODict β) : PyTruth.truth d = !d.items.isEmpty := rfl
 @[simp] theorem iter_list {a} (l : List a) : PyIter.iter l = l := rfl
 @[simp] theorem iter_arg (a : PyArg) : PyIter.iter a = a.elems := rfl
@@ -90,9 +91,15 @@ theorem guarded_get (ls : List (String × List Bool)) (l : String) :
   simp only [ODict.has, ODict.getD, lookupG_eq]
   cases lookup ls l <;> rfl
 
-macro "src_norm" : tactic => `(tactic| try simp only [filterMap_ite, filterMap_ite_not, List.map_id', truth_dict, truth_bool,
+macro "src_norm" : tactic => `(tactic| try simp only [inlined, filterMap_ite, filterMap_ite_not, List.map_id', truth_dict, truth_bool, truth_list,
   guarded_get, shape_list, shape_mask, shape_adj, shapeD_adj, iter_list, iter_arg, iter_dict, has_arg, has_list, has_dict])
-macro "src_close" : tactic => `(tactic| first | rfl | (repeat' split) <;> simp_all)
+/-- the closing portfolio: definitional equality; else a case split on every `if` / `match` of both sides and `simp_all`,
+the second time with the equivalences between the ways Python asks whether a collection is empty -/
+macro "src_close" : tactic => `(tactic| first
+  | rfl
+  | ((repeat' split) <;> simp_all <;> done)
+  | ((repeat' split) <;> simp_all [List.isEmpty_iff, List.length_pos_iff, List.length_eq_zero_iff, Nat.pos_iff_ne_zero]
+      <;> done))
 
 theorem labels_prop_eq {α} (g : LGraph α) : labels_prop g = g.names := by
   unfold labels_prop LGraph.names ODict.keys
@@ -122,7 +129,7 @@ theorem lpug_init_eq {α} (pts : List α) (adj : Adj) (d : ODict (List Bool)) (c
     repeat' split
     all_goals simp_all
 
-macro "src_unfold" : tactic => `(tactic| simp only [filterMap_ite, filterMap_ite_not, List.map_id', labels_prop_eq, verify_eq, from_mask_eq, lpug_init_eq, truth_dict, truth_bool,
+macro "src_unfold" : tactic => `(tactic| simp only [inlined, truth_list, filterMap_ite, filterMap_ite_not, List.map_id', labels_prop_eq, verify_eq, from_mask_eq, lpug_init_eq, truth_dict, truth_bool,
   guarded_get, shape_list, shape_mask, shape_adj, shapeD_adj, iter_list, iter_arg, iter_dict, has_arg, has_list, has_dict])
 
 theorem new_group_eq {α} (g : LGraph α) (a : PyArg) : new_group_with_only_labels g a = selectC g a := by
@@ -249,7 +256,7 @@ theorem connectivity_from_range_eq (t : Int × Int) (c : Bool) :
 theorem from_ranges_eq {α} (pts : List α) (d : ODict (Int × Int × Bool)) :
     pcloud_and_lgroup_from_ranges pts d = fromRangesC pts d := by
   unfold pcloud_and_lgroup_from_ranges fromRangesC
-  simp only [iter_list, connectivity_from_range_eq, init_from_indices_eq]
+  simp only [iter_list, inlined, connectivity_from_range_eq, connectivity_from_array_eq, init_from_indices_eq]
   have key := @forLoop_exit Err _ (LGraph α × ODict (List Int)) _ fromRangesStep
   cases hf : List.foldlM fromRangesStep ([], ODict.empty) d.items with
   | error e =>
